@@ -186,7 +186,7 @@ func init() {
 		},
 	}
 	registry["C17"] = &Check{
-		Rule: "histories (1-25 steps) over 2-5 simulated nodes of bootstrap / join via a member seed (with tryJoinSeeds' generation bump) / restart / in-place suspect+recover / RemoveMember / IncrementVersion / epoch bump / gossip merge, every gossip merge checked for monotonicity and the changed flag; then a drawn triple of snapshots merged in every order under a drawn VersionConcurrentStrategy, MaxClockSkew and MaxVersionVectorEntries (0 or >= node count). Oracle: laws on the projection member -> (generation, logical clock). Non-trivial = the two views disagree on at least one shared member. Distinct = hash of the three views and options.",
+		Rule: "histories (1-25 steps) over 2-5 simulated nodes of bootstrap / join via a member seed (with tryJoinSeeds' generation bump) / restart / in-place suspect+recover / RemoveMember / IncrementVersion / epoch bump / gossip merge, every gossip merge checked for monotonicity and the changed flag; then a drawn triple of snapshots merged in every order under a drawn VersionConcurrentStrategy, MaxClockSkew and MaxVersionVectorEntries (0 or >= node count). Oracle: laws on the projection member -> (generation, logical clock). Non-trivial = the two views disagree on at least one shared member. Distinct = hash of the three views and options. The order-insensitivity laws (commutative, associative) are also checked on the records themselves (generation, logical clock, start stamp): two records of one member that agree in generation and logical clock but belong to different incarnations must not make the result depend on the merge order.",
 		Assumptions: []string{
 			"only nodes that are members of their own view act as join seed, failure detector or version incrementer (the default flow of NodeActor); a non-member incrementing its own vector entry lets a later merge prune that entry without reporting changed - observed, outside the generated domain, see DESIGN.md",
 			"MaxVersionVectorEntries below the member count truncates by design and is not generated",
@@ -225,13 +225,13 @@ func init() {
 
 	msgOverlay := []Inject{{RepoRel: "internal/messages/zz_verif_export.go", Src: "overlay/messages_export.go.txt"}}
 	registry["C12"] = &Check{
-		Rule: "message layer: for a registered wire type drawn from the registry (enumerated at run time through an overlay accessor; a type without a generator fails the harness) a value is generated field by field (empty/nil/zero/extreme constants mixed with uniform draws, nested messages to depth 3, nil message fields, absent refs), encoded with Writer.WriteMessage and decoded with Reader.ReadMessage; plus two messages back to back. Envelope layer: system flag x sender/receiver present/absent x internal/custom/Codec message. Primitive layer: 1-4 values of types drawn from a grammar (13 primitives, slices, arrays, structs, depth 3), both byte orders, by value and by pointer. Oracle: semantic equality (documented normalisations), reader position == bytes written. Non-trivial = the value differs from its type's zero value (message layer), contains a composite type (primitive layer), any envelope. Distinct = hash of the encoded bytes.",
+		Rule: "message layer: for a registered wire type drawn from the registry (enumerated at run time through an overlay accessor; a type without a generator fails the harness) a value is generated field by field (empty/nil/zero/extreme constants mixed with uniform draws, nested messages to depth 3, nil message fields, absent refs), encoded with Writer.WriteMessage and decoded with Reader.ReadMessage; plus two messages back to back. Envelope layer: system flag x sender/receiver present/absent x internal/custom/Codec message. Primitive layer: 1-4 values of types drawn from a grammar (13 primitives, slices, arrays, structs, depth 3), both byte orders, by value and by pointer. Oracle: semantic equality (documented normalisations), reader position == bytes written. Non-trivial = the value differs from its type's zero value (message layer), contains a composite type (primitive layer), any envelope. Distinct = hash of the encoded bytes. Added: interface-typed message fields also carry messages only the Codec knows, one of them with an encoding of zero bytes; own test for the length-prefixed primitives (1-, 2-, 4-byte prefixes and WriteShortString) with lengths at and around 255 / 65535: whatever the writer accepts comes back unchanged with the following field in place, and it refuses only what the prefix cannot carry.",
 		Assumptions: []string{
 			"int-typed fields are drawn from the int32 range and time.Time from the UnixNano-representable range: the widths are the wire format's",
 			"equality treats nil and empty slices/maps, a nil NodeState entry and an absent one, and errors with equal (code, message) as equal: the wire cannot tell them apart",
 		},
 		Units: []Unit{
-			{Name: "rt", Pkg: "c12", Run: "^(TestC12Messages|TestC12Envelopes|TestC12Primitives)$", QuickChecks: 15000, ThoroughChecks: 400000, ThoroughShards: 16, Inject: msgOverlay},
+			{Name: "rt", Pkg: "c12", Run: "^(TestC12Messages|TestC12Envelopes|TestC12Primitives|TestC12LengthPrefixes)$", QuickChecks: 15000, ThoroughChecks: 400000, ThoroughShards: 16, Inject: msgOverlay},
 		},
 	}
 	c13Overlay := append(append([]Inject{}, msgOverlay...), Inject{RepoRel: "internal/remoting/zz_verif_export.go", Src: "overlay/remoting_export.go.txt"})
@@ -353,13 +353,14 @@ func init() {
 	}
 
 	registry["C20"] = &Check{
-		Rule: "virtual time (synctest), 100 ms grid over a horizon of 1-4.5 s: 1-3 actors and 1-10 timed operations from {Once(delay in 0, 1 ns, 100 ms, 250 ms, 300 ms, 1 s, 2 h), Loop(interval in 100 ms .. 3 s), Cron(valid every-2-seconds expression / invalid expression), Cancel(reference), Cancel(unknown), Clear, kill the owner, restart the owner (failure answered by Restart)} with 3 shared reference names, self or another actor as receiver. A reference model computes for every job the exact firing instants up to its end (cancel / clear / owner termination / owner restart): instants strictly before the end must fire exactly once, instants after it never (neither as a delivery nor as a dead letter), the end instant itself may or may not fire; return values: invalid cron => parse error and no delivery ever, Cancel(unknown) => not-found, others nil; the delivery carries the original message value to the named receiver. A reference that is reused while its previous job may still be live is not judged (unspecified). Non-trivial = a job ended between two of its firing instants. Distinct = hash of the case.",
+		Rule: "virtual time (synctest), 100 ms grid over a horizon of 1-4.5 s: 1-3 actors and 1-10 timed operations from {Once(delay in 0, 1 ns, 100 ms, 250 ms, 300 ms, 1 s, 2 h), Loop(interval in 100 ms .. 3 s), Cron(valid every-2-seconds expression / invalid expression), Cancel(reference), Cancel(unknown), Clear, kill the owner, restart the owner (failure answered by Restart)} with 3 shared reference names, self or another actor as receiver. A reference model computes for every job the exact firing instants up to its end (cancel / clear / owner termination / owner restart): instants strictly before the end must fire exactly once, instants after it never (neither as a delivery nor as a dead letter), the end instant itself may or may not fire; return values: invalid cron => parse error and no delivery ever, Cancel(unknown) => not-found, others nil; the delivery carries the original message value to the named receiver. A reference that is reused while its previous job may still be live is not judged (unspecified). Non-trivial = a job ended between two of its firing instants. Distinct = hash of the case. Unit mailbox: the receiver is busy (its handler waits at a gate) with 0-3 ordinary messages queued; a Once or Loop job of another actor or of the receiver itself fires meanwhile; 0-2 more messages follow; then the gate opens: the scheduled message is handled after everything queued before its firing instant and before everything sent after it. Non-trivial there = at least one message was queued before the firing instant.",
 		Assumptions: []string{
 			"go-quartz fires at exact instants on the virtual clock; two jobs due at the same instant may reach the mailbox in either order (compared per job, not across jobs)",
 			"the cron clause uses one valid expression (*/2 * * * * *) on a clock that starts at a whole second",
 		},
 		Units: []Unit{
 			{Name: "sched", Pkg: "c20", Run: "^TestC20Scheduler$", QuickChecks: 8000, ThoroughChecks: 80000, ThoroughShards: 16, CaseFile: true, CrashOracle: "no-crash"},
+			{Name: "mailbox", Pkg: "c20", Run: "^TestC20ThroughTheMailbox$", QuickChecks: 300, ThoroughChecks: 2000, ThoroughShards: 2, CaseFile: true, CrashOracle: "no-crash"},
 		},
 	}
 
